@@ -375,7 +375,10 @@ class TaggedUnionConverter(UnionConverter):
         inner_conv = self.converters[self.tag_map[tag]]
         if self.external is False:
             # internally tagged
-            return inner_conv.into_data(val)
+            data = inner_conv.into_data(val)
+            if data_is_mapping(data) and self.tag not in data:
+                data = {self.tag: tag, **data}
+            return data
         if self.external is True:
             # externally tagged
             return {tag: inner_conv.into_data(val)}
